@@ -163,6 +163,61 @@ Fixpoint split_at_sep (gs : list (list Z)) : list (list Z) * list (list Z) :=
 
 Definition zbool (z : Z) : bool := negb (z =? 0).
 
+(* ---------------------------------------------------------------- a board session (op 2): several articles, several commenters
+   The board carries ALL its comment-related attributes: BRD_ALIGNEDCMT, BRD_IPLOGRECMD, BRD_NORECOMMEND — the three that
+   ptt.Recommend / FormatCommentString read — and BRD_NOBOO, BRD_NOFASTRECMD and FastRecommendPause, which the code
+   never reads: a comment's outcome is a function of (board flags read, commenter, type, text, clock, mtime, the
+   addressed article file, .DIR) and of nothing else — in particular not of earlier comments of anybody. *)
+Record board : Type := Board { b_align : bool; b_iplog : bool; b_norec : bool; b_noboo : bool; b_nofast : bool; b_pause : Z }.
+Record hstep : Type := HStep { h_uid13 : list Z; h_ip16 : list Z; h_art : nat; h_ct : Z; h_content : list Z; h_clock : list Z; h_mtime : Z }.
+Record bst : Type := BSt { bs_arts : list (list Z); bs_dir : list Z }.        (* the article files (in the order of [names]), .DIR *)
+
+Definition cfg_of (b : board) (x : hstep) : cfg := Cfg (b_align b) (b_iplog b) (b_norec b) (h_uid13 x) (h_ip16 x).
+
+Fixpoint set_nth (k : nat) (l : list (list Z)) (v : list Z) : list (list Z) :=
+  match l, k with
+  | [], _ => []
+  | _ :: r, O => v :: r
+  | a :: r, S k' => a :: set_nth k' r v
+  end.
+
+Definition board_step (b : board) (names : list (list Z)) (x : hstep) (s : bst) : cres :=
+  recommend (cfg_of b x) (nth (h_art x) names []) (h_ct x) (h_content x) (h_clock x) (h_mtime x)
+            (St (nth (h_art x) (bs_arts s) []) (bs_dir s)).
+
+Definition board_next (x : hstep) (s : bst) (r : cres) : bst :=
+  match r with
+  | COk _ s' => BSt (set_nth (h_art x) (bs_arts s) (s_art s')) (s_dir s')
+  | CErr _ => s
+  end.
+
+Fixpoint run_hist (b : board) (names : list (list Z)) (hist : list hstep) (s : bst) : bst :=
+  match hist with
+  | [] => s
+  | x :: r => run_hist b names r (board_next x s (board_step b names x s))
+  end.
+
+(* steps: [user; article; ct; content...]; users: [uid number; sysop; id bytes...]; observations as for op 1.
+   An accepted step is dumped as for op 1 followed by the number of OTHER article files that changed (0). *)
+Fixpoint run_hsteps (b : board) (names users : list (list Z)) (ip16 : list Z) (steps obs : list (list Z)) (s : bst) : option (list Z) :=
+  match steps with
+  | [] => Some []
+  | (u :: a :: ct :: content) :: steps' =>
+      match obs with
+      | o :: obs' =>
+          let x := HStep (fixlen 13 (skipn 2 (nth (Z.to_nat u) users []))) ip16 (Z.to_nat a) ct content (firstn 11 o) (nth 11 o 0) in
+          let r := board_step b names x s in
+          match run_hsteps b names users ip16 steps' obs' (board_next x s r) with
+          | Some out =>
+              Some (dump_step (nth (h_art x) names []) (St (nth (h_art x) (bs_arts s) []) (bs_dir s)) r (h_mtime x) ++
+                    (match r with COk _ _ => [0] | CErr _ => [] end) ++ out)
+          | None => None
+          end
+      | [] => None
+      end
+  | _ => None
+  end.
+
 (* [1]; [align; iplog; norec]; .DIR bytes; name (28 bytes); article bytes; ip; user id; steps...; [99]; observations... *)
 Definition run_case (args : list (list Z)) : list Z :=
   match args with
@@ -170,6 +225,18 @@ Definition run_case (args : list (list Z)) : list Z :=
       let '(steps, obs) := split_at_sep rest in
       let c := Cfg (zbool al) (zbool ipl) (zbool nr) (fixlen 13 uid) (fixlen 16 ip) in
       match run_steps c (fixlen 28 name) steps obs (St art dir) with
+      | Some out => [ST_OK; lenZ steps] ++ out
+      | None => [ST_BADCASE]
+      end
+  (* [2]; [align; iplog; norec; noboo; nofast; pause]; .DIR; ip; [k; nu]; k names; k article files; nu users; steps...; [99]; observations... *)
+  | [2] :: [al; ipl; nr; nb; nf; pause] :: dir :: ip :: [k; nu] :: rest =>
+      let kn := Z.to_nat k in
+      let names := map (fixlen 28) (firstn kn rest) in
+      let arts := firstn kn (skipn kn rest) in
+      let users := firstn (Z.to_nat nu) (skipn (kn + kn) rest) in
+      let '(steps, obs) := split_at_sep (skipn (kn + kn + Z.to_nat nu) rest) in
+      let b := Board (zbool al) (zbool ipl) (zbool nr) (zbool nb) (zbool nf) pause in
+      match run_hsteps b names users (fixlen 16 ip) steps obs (BSt arts dir) with
       | Some out => [ST_OK; lenZ steps] ++ out
       | None => [ST_BADCASE]
       end
